@@ -2219,15 +2219,9 @@ start_type (GMarkupParseContext *context,
 }
 
 static void
-end_type_top (ParseContext *ctx)
+default_container_parameters (ParseContext *ctx,
+                              GIrNodeType  *typenode)
 {
-  GIrNodeType *typenode;
-
-  if (!ctx->type_parameters)
-    goto out;
-
-  typenode = (GIrNodeType*)ctx->type_parameters->data;
-
   /* Default to pointer for unspecified containers */
   if (typenode->tag == GI_TYPE_TAG_ARRAY ||
       typenode->tag == GI_TYPE_TAG_GLIST ||
@@ -2244,6 +2238,19 @@ end_type_top (ParseContext *ctx)
 	  typenode->parameter_type2 = parse_type (ctx, "gpointer");
 	}
     }
+}
+
+static void
+end_type_top (ParseContext *ctx)
+{
+  GIrNodeType *typenode;
+
+  if (!ctx->type_parameters)
+    goto out;
+
+  typenode = (GIrNodeType*)ctx->type_parameters->data;
+
+  default_container_parameters (ctx, typenode);
 
   switch (ctx->current_typed->type)
     {
@@ -2292,6 +2299,9 @@ end_type_recurse (ParseContext *ctx)
   parent = (GIrNodeType *) ((GList*)ctx->type_stack->data)->data;
   if (ctx->type_parameters)
     param = (GIrNodeType *) ctx->type_parameters->data;
+
+  if (param != NULL)
+    default_container_parameters (ctx, param);
 
   if (parent->tag == GI_TYPE_TAG_ARRAY ||
       parent->tag == GI_TYPE_TAG_GLIST ||
